@@ -42,6 +42,8 @@ Inductive rt_event :=
 | RtTick                                                   (* coap_io_prepare_epoll(ctx, now) *)
 | RtAck (sess mid : Z)                                     (* ACK with that mid read from sess *)
 | RtRst (sess mid : Z)                                     (* RST with that mid read from sess *)
+| RtNon (sess mid : Z) (tok : list Z)                      (* NON response with that token (and any
+                                                              mid: the peer's id space) from sess *)
 | RtDump.                                                  (* observation of the queue *)
 
 Definition rt_NACK_TOO_MANY_RETRIES : Z := 0.
@@ -144,6 +146,32 @@ Definition rt_rst (st : rt_state) (s m : Z) : rt_state * list rt_out :=
       let (st1, o) := rt_fire_all st in (st1, RoNackNoPdu (rs_now st) s rt_NACK_RST m :: o)
   end.
 
+(* the token of an encoded PDU (TKL <= 8): bytes 4 .. 4+TKL *)
+Definition rt_token_of (bytes : list Z) : list Z :=
+  match bytes with
+  | [] => []
+  | b0 :: _ => firstn (Z.to_nat (b0 mod 16)) (skipn 4 bytes)
+  end.
+
+Fixpoint rt_bytes_eqb (a b : list Z) : bool :=
+  match a, b with
+  | [], [] => true
+  | x :: a', y :: b' => (x =? y) && rt_bytes_eqb a' b'
+  | _, _ => false
+  end.
+
+Definition rt_tok_match (s : Z) (tok : list Z) (n : sq_node) : bool :=
+  (qn_sess n =? s) && rt_bytes_eqb (rt_token_of (qn_bytes n)) tok.
+
+(* a Non-confirmable RESPONSE read from a session: handle_response cancels every queued message
+   of that session with the response's token (coap_cancel_all_messages: the response is the
+   implicit acknowledgement, RFC 7252 5.2.2), no NACK; the message id of the NON is the peer's
+   and plays no role (/repo 0c2a709) *)
+Definition rt_non (st : rt_state) (s : Z) (tok : list Z) : rt_state * list rt_out :=
+  let (rm, q') := sq_cancel (rt_tok_match s tok) (rs_q st) in
+  let (st1, o) := rt_fire_all (rt_set_q st q') in
+  (st1, map (fun n => RoAcked (rs_now st) (qn_uid n)) rm ++ o).
+
 Definition rt_step (st : rt_state) (ev : rt_event) : rt_state * list rt_out :=
   match ev with
   | RtAdvance dt => (rt_mk_state (rs_now st + dt) (rs_base st) (rs_q st) (rs_uid st), [])
@@ -151,6 +179,7 @@ Definition rt_step (st : rt_state) (ev : rt_event) : rt_state * list rt_out :=
   | RtTick => rt_tick st
   | RtAck s m => rt_ack st s m
   | RtRst s m => rt_rst st s m
+  | RtNon s _ tok => rt_non st s tok
   | RtDump => (st, [RoDump (rs_now st) (sq_abs (rs_base st) (rs_q st))])
   end.
 
